@@ -531,6 +531,11 @@ func (t *smallHuffCodeTable) genForDists(codes []huffCode, count []uint16, maxSy
 
 	codeListLen := countTotal[16]
 	if codeListLen == 0 {
+		// no distance code at all: every lookup must be invalid, not whatever
+		// the previous block left in the table
+		for i := range t.ShortCodeLookup {
+			t.ShortCodeLookup[i] = 0
+		}
 		return
 	}
 	var codeList [distLen + 2]uint32 /* The +2 is for the extra codes in the static header */
@@ -549,6 +554,11 @@ func (t *smallHuffCodeTable) genForDists(codes []huffCode, count []uint16, maxSy
 		lastLength = distLookupBits + 1
 	}
 	copySize := (1 << (lastLength - 1))
+
+	// Initialize ShortCodeLookup, so lookups of unassigned codes are invalid
+	for i := range t.ShortCodeLookup[:copySize] {
+		t.ShortCodeLookup[i] = 0
+	}
 
 	for ; lastLength <= distLookupBits; lastLength++ {
 		copy(t.ShortCodeLookup[copySize:], t.ShortCodeLookup[:copySize])
@@ -590,7 +600,7 @@ func (t *smallHuffCodeTable) genForDists(codes []huffCode, count []uint16, maxSy
 				tempCodeLength++
 			}
 		}
-		for x := longCodeLookupLength; x < longCodeLookupLength+2*(1<<(maxLength-distLookupBits)); x++ {
+		for x := longCodeLookupLength; x < longCodeLookupLength+(1<<(maxLength-distLookupBits)); x++ {
 			t.LongCodeLookup[x] = 0
 		}
 
